@@ -136,10 +136,13 @@ impl<R: Read> PgnRawParser<R> {
         Ok(())
     }
 
-    fn skip_to_next_line(&mut self) -> Result<(), PgnRawParserError> {
-        while self.pop_byte()? != b'\n' {};
-
-        Ok(())
+    /// Skip up to and including the next newline; the end of the input also ends the line
+    fn skip_to_next_line(&mut self) {
+        while let Ok(byte) = self.pop_byte() {
+            if byte == b'\n' {
+                break;
+            }
+        }
     }
 
     fn read_until(&mut self, byte: u8) -> Result<String, PgnRawParserError> {
@@ -198,7 +201,22 @@ impl<R: Read> PgnRawParser<R> {
             result.push(mv);
         }
 
-        self.skip_to_next_line()?;
+        self.skip_to_next_line();
+
+        Ok(result)
+    }
+
+    /// Read a movetext token, which ends at a space, a newline or the end of the input
+    fn read_token(&mut self) -> Result<String, PgnRawParserError> {
+        let mut result = String::new();
+
+        while let Ok(byte) = self.peek_byte() {
+            if byte == b' ' || byte == b'\n' {
+                break;
+            }
+            result.push(byte as char);
+            self.skip_byte()?;
+        }
 
         Ok(result)
     }
@@ -206,32 +224,26 @@ impl<R: Read> PgnRawParser<R> {
     fn read_move(&mut self) -> Result<Option<PgnRawAnnotatedMove>, PgnRawParserError> {
         self.skip_blank_lines_and_spaces()?;
 
-        let token = self.read_until(b' ')?;
+        let token = self.read_token()?;
 
-        let mut chars = token.chars();
-        if chars.next() == Some('*') {
-            return Ok(None);
-        }
-
-        if let Some('-' | '/') = chars.next() {
-            self.skip_to_next_line()?;
+        if matches!(token.as_str(), "*" | "1-0" | "0-1" | "1/2-1/2") {
             return Ok(None);
         }
 
         let mv = if token.contains('.') {
             self.skip_spaces()?;
-            self.read_until(b' ')?
+            self.read_token()?
         } else {
             token
         };
 
-        self.skip_spaces()?;
+        while let Ok(b' ') = self.peek_byte() {
+            self.skip_byte()?;
+        }
 
-        let byte = self.peek_byte()?;
-
-        let annotation = match byte {
-            b'{' => Some(self.read_braced_annotation()?),
-            b';' => Some(self.read_semicolon_annotation()?),
+        let annotation = match self.peek_byte() {
+            Ok(b'{') => Some(self.read_braced_annotation()?),
+            Ok(b';') => Some(self.read_semicolon_annotation()?),
             _ => None,
         };
 
